@@ -118,7 +118,14 @@ def run(ck):
                 ck.sample({'program': sc['program'], 'backend': sc['backend'], 'events': [X.ev_show(e) for e in res.trace[:40]]})
     enumerated(ck, b)
     b.flush()
+    # exactly-once with REAL processes (harness/e2e.py): every task function appends one line per call to a log; after
+    # 1-4 concurrent `jug execute` processes (+ pack, late workers, a final idle execute) each call line occurs exactly once
+    from . import e2e
+    e2e.run_section(ck, 16, 200)
 
 
 def replay(obj):
+    if obj.get('section') == 'e2e':
+        from . import e2e
+        return e2e.replay(obj)
     return X.replay_scenario(obj, ORACLES)
